@@ -127,6 +127,31 @@ def check(col: Collector, tier: str):
             col.add("C12.R7", "find_known_functions.visit_Call", f"resolves:{name}", name in keys,
                     f"`{name}` resolves to the bare key, which has no row", m.rel)
 
+    # R8 the header requested by add_include reaches the package on every backend: the include list handed to the
+    # templates is the translator's list plus the injected body includes, unfiltered
+    wf = repo.method("executor", "write_cpp_files", hint="common.executor")
+    inc = None
+    for st in walk_no_nested(wf.node):
+        if isinstance(st, ast.Assign) and isinstance(st.targets[0], ast.Subscript) and const_str(st.targets[0].slice) == "body_include_files":
+            inc = st.value
+    v = inc
+    depth = 0
+    while isinstance(v, ast.Name) and depth < 4:
+        ds = [st.value for st in walk_no_nested(wf.node) if isinstance(st, ast.Assign) and isinstance(st.targets[0], ast.Name) and st.targets[0].id == v.id]
+        v = ds[0] if len(ds) == 1 else None
+        depth += 1
+    ok = isinstance(v, ast.BinOp) and isinstance(v.op, ast.Add) and src(v.left) == "qv.include_files()"
+    col.add("C12.R8", wf.short, "requested-headers-reach-the-templates-unfiltered", ok,
+            f"info['body_include_files'] must be qv.include_files() + <injected includes> (found {src(v) if v is not None else None}): filtering it "
+            "(e.g. against the header includes, which the single-file CMS templates never render) drops <cmath>", wf.loc)
+    from sa.core import jinja_facts as J
+    for rel, t in J.load_all().items():
+        if rel.endswith(("query.cxx", "Analyzer.cc")):
+            slots = [s_ for s_ in t.slots if s_.var == "body_include_files"]
+            ok = len(slots) == 1 and slots[0].body_text.strip() == '#include "{{' + slots[0].target + '}}"' and not slots[0].loop_filters
+            col.add("C12.R8", f"template:{rel.split('template/')[-1]}", "renders-every-requested-header", ok,
+                    "the source template must emit #include \"<file>\" for every entry of body_include_files", rel)
+
     # R4 kind agreement producer/consumer of cpp_return_type
     check_kinds(col, repo)
     # R5 emission handler
